@@ -1,6 +1,6 @@
 import UvModel.StreamR
 import UvModel.Lemmas.StreamRLemmas
-/-! C06 — stream reads.  Every theorem is about `exec u init ops`: any main program `ops`
+/-! C06 — stream reads.  Every theorem is about `exec u (start ipc) ops`: any main program `ops`
     (uv_read_start/stop, uv_close, loop iterations with arbitrary epoll events and arbitrary
     read(2) outcome lists, peer writes / shutdown), any user `u` (alloc_cb sizes or refusals per
     call, read_cb scripts of stop/start/close per call).  Events in the trace: see `StreamR.Ev`. -/
@@ -16,22 +16,22 @@ def IsCb (e : Ev) : Prop := (∃ id sz, e = .alloc id sz) ∨ (∃ n buf b, e = 
 /-- Conservation: at any time, what the peer wrote = what read_cb received (in callback order)
     followed by what is still in the kernel buffer.  Nothing lost, duplicated or reordered, for every
     alloc size sequence, stop/start pattern, chunking, EAGAIN/EINTR/short-read schedule. -/
-theorem delivered_is_prefix_in_order (u : User) (ops : List Op) :
-    sent (exec u init ops).trace = delivered (exec u init ops).trace ++ (exec u init ops).kbuf := by
-  have h := coupled_exec u ops init coupled_init
+theorem delivered_is_prefix_in_order (u : User) (ipc : Bool) (ops : List Op) :
+    sent (exec u (start ipc) ops).trace = delivered (exec u (start ipc) ops).trace ++ (exec u (start ipc) ops).kbuf := by
+  have h := coupled_exec (syn := false) u ops (start ipc) (coupled_start ipc) (by intro h; cases h)
   have := h.cons
   rwa [mon_sent, mon_deliv] at this
 
-theorem delivered_prefix (u : User) (ops : List Op) :
-    delivered (exec u init ops).trace <+: sent (exec u init ops).trace :=
-  ⟨_, (delivered_is_prefix_in_order u ops).symm⟩
+theorem delivered_prefix (u : User) (ipc : Bool) (ops : List Op) :
+    delivered (exec u (start ipc) ops).trace <+: sent (exec u (start ipc) ops).trace :=
+  ⟨_, (delivered_is_prefix_in_order u ipc ops).symm⟩
 
 /-- When UV_EOF is reported with an alloc'd buffer (read(2) returned 0), the peer had shut down
     and everything it wrote had already been delivered. -/
-theorem delivered_all_at_eof (u : User) (ops : List Op) (pre post : List Ev) (id : Nat) (b : List Byte)
-    (hs : (exec u init ops).trace = pre ++ .readCb UV_EOF (some id) b :: post) :
+theorem delivered_all_at_eof (u : User) (ipc : Bool) (ops : List Op) (pre post : List Ev) (id : Nat) (b : List Byte)
+    (hs : (exec u (start ipc) ops).trace = pre ++ .readCb UV_EOF (some id) b :: post) :
     delivered pre = sent pre ∧ Ev.peerShut ∈ pre := by
-  have h := (coupled_exec u ops init coupled_init).okEof
+  have h := (coupled_exec (syn := false) u ops (start ipc) (coupled_start ipc) (by intro h; cases h)).okEof
   rw [hs, mon_split] at h
   have h1 := fold_okEof _ _ h
   simp [Mon.step, mon_deliv, mon_sent] at h1
@@ -41,10 +41,10 @@ theorem delivered_all_at_eof (u : User) (ops : List Op) (pre post : List Ev) (id
 
 /-- Every alloc_cb is immediately followed by the read_cb that carries its buffer
     (whatever nread is: data, 0, UV_ENOBUFS, error, UV_EOF). -/
-theorem alloc_paired (u : User) (ops : List Op) (pre post : List Ev) (id sz : Nat)
-    (hs : (exec u init ops).trace = pre ++ .alloc id sz :: post) :
+theorem alloc_paired (u : User) (ipc : Bool) (ops : List Op) (pre post : List Ev) (id sz : Nat)
+    (hs : (exec u (start ipc) ops).trace = pre ++ .alloc id sz :: post) :
     ∃ n bytes post', post = .readCb n (some id) bytes :: post' := by
-  have hc := coupled_exec u ops init coupled_init
+  have hc := coupled_exec (syn := false) u ops (start ipc) (coupled_start ipc) (by intro h; cases h)
   have h := hc.okPair
   have hp := hc.pend
   rw [hs, mon_split] at h hp
@@ -57,9 +57,9 @@ theorem alloc_paired (u : User) (ops : List Op) (pre post : List Ev) (id sz : Na
     case readCb n buf bytes => exact ⟨n, bytes, post', by rw [h1.2]⟩
 
 /-- alloc ids are the call numbers 0,1,2,… (`allocCount pre` = alloc_cb calls so far): no buffer id is handed out twice -/
-theorem alloc_ids_fresh (u : User) (ops : List Op) (pre post : List Ev) (id sz : Nat)
-    (hs : (exec u init ops).trace = pre ++ .alloc id sz :: post) : id = allocCount pre := by
-  have h := (coupled_exec u ops init coupled_init).okPair
+theorem alloc_ids_fresh (u : User) (ipc : Bool) (ops : List Op) (pre post : List Ev) (id sz : Nat)
+    (hs : (exec u (start ipc) ops).trace = pre ++ .alloc id sz :: post) : id = allocCount pre := by
+  have h := (coupled_exec (syn := false) u ops (start ipc) (coupled_start ipc) (by intro h; cases h)).okPair
   rw [hs, mon_split] at h
   have h1 := fold_okPair _ _ h
   simp [Mon.step] at h1
@@ -68,10 +68,10 @@ theorem alloc_ids_fresh (u : User) (ops : List Op) (pre post : List Ev) (id sz :
 
 /-- …and a read_cb carries an alloc'd buffer only directly after that alloc_cb: with `alloc_paired`
     and `alloc_ids_fresh`, each buffer is handed back exactly once. -/
-theorem readcb_buffer_from_preceding_alloc (u : User) (ops : List Op) (pre post : List Ev) (n : Int) (id : Nat)
-    (b : List Byte) (hs : (exec u init ops).trace = pre ++ .readCb n (some id) b :: post) :
+theorem readcb_buffer_from_preceding_alloc (u : User) (ipc : Bool) (ops : List Op) (pre post : List Ev) (n : Int) (id : Nat)
+    (b : List Byte) (hs : (exec u (start ipc) ops).trace = pre ++ .readCb n (some id) b :: post) :
     ∃ pre' sz, pre = pre' ++ [.alloc id sz] := by
-  have h := (coupled_exec u ops init coupled_init).okPair
+  have h := (coupled_exec (syn := false) u ops (start ipc) (coupled_start ipc) (by intro h; cases h)).okPair
   rw [hs, mon_split] at h
   have h1 := fold_okPair _ _ h
   rcases List.eq_nil_or_concat pre with hp | ⟨pre', e, hp⟩
@@ -85,10 +85,10 @@ theorem readcb_buffer_from_preceding_alloc (u : User) (ops : List Op) (pre post 
 
 /-- After UV_EOF, a read error, uv_read_stop or uv_close, no alloc_cb / read_cb happens until a
     uv_read_start succeeds. -/
-theorem quiet_after_eof_error_stop (u : User) (ops : List Op) (pre mid post : List Ev) (q c : Ev)
-    (hs : (exec u init ops).trace = pre ++ q :: (mid ++ c :: post)) (hq : StopEv q) (hcb : IsCb c) :
+theorem quiet_after_eof_error_stop (u : User) (ipc : Bool) (ops : List Op) (pre mid post : List Ev) (q c : Ev)
+    (hs : (exec u (start ipc) ops).trace = pre ++ q :: (mid ++ c :: post)) (hq : StopEv q) (hcb : IsCb c) :
     Ev.ret .start 0 ∈ mid := by
-  have h := (coupled_exec u ops init coupled_init).okQuiet
+  have h := (coupled_exec (syn := false) u ops (start ipc) (coupled_start ipc) (by intro h; cases h)).okQuiet
   rw [hs, mon_split, List.foldl_append, List.foldl_cons] at h
   have h1 := fold_okQuiet _ _ h
   have hq1 : ((mon pre).step q).quiet = true := by
@@ -102,12 +102,12 @@ theorem quiet_after_eof_error_stop (u : User) (ops : List Op) (pre mid post : Li
 
 /-- UV_EOF is reported at most once per reading session: between two UV_EOF callbacks the user
     restarted reading (and by `delivered_all_at_eof` it comes only after all data). -/
-theorem eof_once_after_data (u : User) (ops : List Op) (pre mid post : List Ev) (e1 e2 : Ev)
-    (hs : (exec u init ops).trace = pre ++ e1 :: (mid ++ e2 :: post)) (h1 : EOFcb e1) (h2 : EOFcb e2) :
+theorem eof_once_after_data (u : User) (ipc : Bool) (ops : List Op) (pre mid post : List Ev) (e1 e2 : Ev)
+    (hs : (exec u (start ipc) ops).trace = pre ++ e1 :: (mid ++ e2 :: post)) (h1 : EOFcb e1) (h2 : EOFcb e2) :
     Ev.ret .start 0 ∈ mid := by
   obtain ⟨buf1, b1, rfl⟩ := h1
   obtain ⟨buf2, b2, rfl⟩ := h2
-  exact quiet_after_eof_error_stop u ops pre mid post _ _ hs
+  exact quiet_after_eof_error_stop u ipc ops pre mid post _ _ hs
     (Or.inl ⟨_, _, _, rfl, by decide, by decide⟩) (Or.inr ⟨_, _, _, rfl⟩)
 
 /-- At most 32 alloc_cb/read_cb rounds per loop iteration (`nAlloc` counts alloc_cb calls), whatever
@@ -116,35 +116,47 @@ theorem iteration_bound (u : User) (s : St) (ev : PollEv) (reads : List Outcome)
     (stepOp u s (.poll ev reads)).nAlloc ≤ s.nAlloc + 32 :=
   poll_nAlloc u s ev reads
 
-/-- Hang-up with data still buffered.  uv__stream_io reports the synthetic UV_EOF only when uv__read
-    left READ_PARTIAL set.  If the kernel hands over min(buffer, available) bytes on every successful
-    read (`NoShort`: scripted `ok k` outcomes have k ≥ every buffer size; EAGAIN/EINTR/errors are
-    unrestricted), READ_PARTIAL after uv__read implies that the kernel buffer is empty - so, with
-    `delivered_is_prefix_in_order`, everything the peer wrote was delivered before the synthetic EOF -
-    and the stream is not an IPC pipe (those never take this path). -/
-theorem hup_with_data_not_lost_partial (u : User) (K : Nat) (hA : ∀ i, u.allocS i ≤ K) (s : St)
-    (hO : NoShort K s.oracle) (h : (uvRead u s).readPartial = true) :
-    (uvRead u s).kbuf = [] ∧ s.ipc = false :=
-  partial_implies_drained u K hA s hO h
+/-- Hang-up with data still buffered (trace level, full statement).  uv__stream_io reports the synthetic
+    UV_EOF (`readCb UV_EOF none`, no buffer) on POLLHUP only after uv__read left READ_PARTIAL set.
+    Environment condition `EnvOK` for the read outcomes of every loop iteration: the stream is an IPC
+    pipe (no condition at all on the kernel: READ_PARTIAL is never set there, so short reads at
+    descriptor-message boundaries are harmless), or the kernel hands over min(buffer, available) bytes
+    on every successful read (`NoShort K`: scripted `ok k` have k ≥ K ≥ every buffer size; EAGAIN,
+    EINTR and errors are unrestricted).  Then at every synthetic EOF everything the peer wrote has
+    been delivered: data still buffered at hang-up is never lost. -/
+theorem hup_with_data_not_lost (u : User) (ipc : Bool) (ops : List Op) (K : Nat)
+    (henv : ∀ ev reads, Op.poll ev reads ∈ ops → EnvOK u K ipc reads)
+    (pre post : List Ev) (b : List Byte)
+    (hs : (exec u (start ipc) ops).trace = pre ++ .readCb UV_EOF none b :: post) :
+    delivered pre = sent pre := by
+  have hok : OpsOK u ipc ops := fun ev reads hm => pollOK_of_envOK u K ipc reads (henv ev reads hm)
+  have h := (coupled_exec (syn := true) u ops (start ipc) (coupled_start ipc) (fun _ => hok)).okSyn rfl
+  rw [hs, mon_split] at h
+  have h1 := fold_okSyn _ _ h
+  simp [Mon.step, mon_deliv, mon_sent] at h1
+  exact h1.2
 
-/-- Trace-level form (not proved: lifting the step-level fact above through `exec` needs the coupling
-    invariant extended by the `NoShort` hypothesis on every `poll` op; for IPC pipes the hypothesis
-    should not be needed at all). -/
-def hup_with_data_not_lost_full : Prop :=
-  ∀ (u : User) (ops : List Op) (K : Nat), (∀ i, u.allocS i ≤ K) →
-    (∀ ev reads, Op.poll ev reads ∈ ops → NoShort K reads) →
-    ∀ pre post b, (exec u init ops).trace = pre ++ .readCb UV_EOF none b :: post → delivered pre = sent pre
+/-- for IPC pipes the statement needs no assumption on the kernel's read results -/
+theorem hup_with_data_not_lost_ipc (u : User) (ops : List Op) (pre post : List Ev) (b : List Byte)
+    (hs : (exec u (start true) ops).trace = pre ++ .readCb UV_EOF none b :: post) :
+    delivered pre = sent pre :=
+  hup_with_data_not_lost u true ops 0 (fun _ _ _ => Or.inl rfl) pre post b hs
+
+/-- step level, any state: READ_PARTIAL after uv__read implies an empty kernel buffer and a non-IPC stream -/
+theorem read_partial_implies_drained (u : User) (K : Nat) (s : St) (H : EnvOK u K s.ipc s.oracle)
+    (h : (uvRead u s).readPartial = true) : (uvRead u s).kbuf = [] ∧ s.ipc = false :=
+  partial_implies_drained u K s H h
 
 /-- Without the kernel assumption the statement is false of the code: a short read that leaves data
     behind (here 2 of 3 bytes into a 10-byte buffer) followed by POLLHUP makes uv__stream_io report
     UV_EOF while a byte is still unread.  Linux produces such reads at the boundary of
     descriptor-carrying messages; that was the IPC data-loss defect (fixed: IPC pipes no longer set
-    READ_PARTIAL), replayed on the real library by corpus/C06/ipc-fd-msg-then-data-then-close.txt. -/
+    READ_PARTIAL; `hup_with_data_not_lost_ipc`), replayed on the real library by corpus/C06/ipc-fd-msg-then-data-then-close.txt. -/
 def uLoss : User := { allocS := fun _ => 10, cbS := fun _ => [] }
 def opsLoss : List Op := [.start, .peerW [1, 2, 3], .peerShut, .poll { inn := true, hup := true } [.ok 2]]
 
 theorem short_read_then_hup_loses_data :
-    ∃ pre b, (exec uLoss init opsLoss).trace = pre ++ [.readCb UV_EOF none b] ∧ delivered pre ≠ sent pre :=
+    ∃ pre b, (exec uLoss (start false) opsLoss).trace = pre ++ [.readCb UV_EOF none b] ∧ delivered pre ≠ sent pre :=
   ⟨[.ret .start 0, .peerW [1, 2, 3], .peerShut, .alloc 0 10, .readCb 2 (some 0) [1, 2]], [], by decide, by decide⟩
 
 /-! Non-vacuity: a concrete run that contains every kind of event the theorems speak about (data,
@@ -155,18 +167,18 @@ def uEx : User := { allocS := fun k => if k = 1 then 0 else 2, cbS := fun k => i
 def opsEx : List Op := [.start, .peerW [7, 8, 9], .poll { inn := true } [.eintr, .ok 2], .peerShut,
   .poll { inn := true } [.eagain], .poll { inn := true, hup := true } [.ok 1, .ok 0], .stop, .poll { hup := true } []]
 
-example : (exec uEx init opsEx).trace =
+example : (exec uEx (start false) opsEx).trace =
     [.ret .start 0, .peerW [7, 8, 9], .alloc 0 2, .readCb 2 (some 0) [7, 8], .alloc 1 0, .readCb (-105) (some 1) [],
      .peerShut, .alloc 2 2, .readCb 0 (some 2) [], .ret .stop 0, .ret .start 0, .alloc 3 2, .readCb 1 (some 3) [9],
      .readCb (-4095) none [], .ret .stop 0] := by decide
 
 /-- a read-0 EOF after all data, then restart and a second EOF (instance of `eof_once_after_data`, `delivered_all_at_eof`) -/
-example : (exec { allocS := fun _ => 4, cbS := fun k => if k = 1 then [.start] else [] } init
+example : (exec { allocS := fun _ => 4, cbS := fun k => if k = 1 then [.start] else [] } (start false)
       [.start, .peerW [5, 6], .peerShut, .poll { inn := true } [], .poll { inn := true } [], .poll { inn := true } []]).trace =
     [.ret .start 0, .peerW [5, 6], .peerShut, .alloc 0 4, .readCb 2 (some 0) [5, 6], .alloc 1 4, .readCb (-4095) (some 1) [],
      .ret .start 0, .alloc 2 4, .readCb (-4095) (some 2) []] := by decide
 
-/-- hypotheses of `hup_with_data_not_lost_partial` are satisfiable with READ_PARTIAL set -/
+/-- hypotheses of `read_partial_implies_drained` are satisfiable with READ_PARTIAL set -/
 example : NoShort 4 [Outcome.eintr, .ok 9] ∧
     (uvRead { allocS := fun _ => 4, cbS := fun _ => [] }
       { reading := true, hasCb := true, pollin := true, kbuf := [1, 2], oracle := [.eintr, .ok 9] }).readPartial = true := by
@@ -178,5 +190,19 @@ example : NoShort 4 [Outcome.eintr, .ok 9] ∧
 example : (stepOp { allocS := fun _ => 1, cbS := fun _ => [] }
       { reading := true, hasCb := true, pollin := true, kbuf := List.replicate 40 0 } (.poll { inn := true } [])).nAlloc = 32 := by
   decide
+
+/-- `hup_with_data_not_lost` is not vacuous: a run satisfying `EnvOK` (natural reads, buffers ≤ 4) that ends
+    in the synthetic EOF after the buffered data -/
+example : (exec { allocS := fun _ => 4, cbS := fun _ => [] } (start false)
+      [.start, .peerW [5, 6], .peerShut, .poll { inn := true, hup := true } [.eintr, .ok 9]]).trace =
+    [.ret .start 0, .peerW [5, 6], .peerShut, .alloc 0 4, .readCb 2 (some 0) [5, 6], .readCb (-4095) none []] := by decide
+
+/-- IPC pipe: short reads at message boundaries (`ok 2` of 3 bytes) and POLLHUP: no synthetic EOF, the data
+    arrives on the next iteration and EOF comes from read returning 0 -/
+example : (exec { allocS := fun _ => 8, cbS := fun _ => [] } (start true)
+      [.start, .peerW [1, 2, 3], .peerShut, .poll { inn := true, hup := true } [.ok 2],
+       .poll { inn := true, hup := true } [], .poll { inn := true, hup := true } []]).trace =
+    [.ret .start 0, .peerW [1, 2, 3], .peerShut, .alloc 0 8, .readCb 2 (some 0) [1, 2], .alloc 1 8, .readCb 1 (some 1) [3],
+     .alloc 2 8, .readCb (-4095) (some 2) []] := by decide
 
 end UvModel.Props.C06
